@@ -259,12 +259,22 @@ impl Version {
             })
             .collect::<crate::Result<Vec<_>>>()?;
 
+        let blob_files =
+            BlobFileList::new(blob_files.iter().cloned().map(|bf| (bf.id(), bf)).collect());
+
+        // IMPORTANT: The persisted GC stats may still mention blob files that were dropped from
+        // the version (e.g. by drop_range). The blob file ID counter restarts above the highest
+        // *live* ID, so such an ID can be handed out again, and the stale entry would then
+        // declare the new blob file (partially) dead although it is fully referenced
+        let mut gc_stats = recovery.gc_stats;
+        gc_stats.prune(&blob_files);
+
         Ok(Self::from_levels(
             recovery.curr_version_id,
             recovery.tree_type,
             version_levels,
-            BlobFileList::new(blob_files.iter().cloned().map(|bf| (bf.id(), bf)).collect()),
-            recovery.gc_stats,
+            blob_files,
+            gc_stats,
         ))
     }
 
